@@ -8,21 +8,49 @@ LEVEL = 'proof'
 RULE = ('all ordered pairs of ndarray operands of rank 1..3, extents 1..E (same shape: identical data and a perturbation at every '
         'position; same size/different shape; different size: common prefix data), index arrays (dynamic and fixed length, prefix / longer), '
         'numbers, optionals (empty/non-empty on either side), eithers (left=num, right=ndarray), tuples, views (double transpose); '
+        'dispatch coverage (op disp, both operand orders in one answer): all pairs over {bare Nothing literal, number, integral constant, '
+        'index array (dynamic / fixed / constant tuple), ndarray, tuple} x {plain, engaged / empty optional, either alternative, '
+        'optional of either, either of optional} that compile, for isequal and for isclose with eps 8 / 1 / default; '
         'NDEBUG and assert-enabled sanitizer builds. non-trivial = operands differ in shape, length, wrapper or exactly one element')
 EXHAUSTIVE = {'quick': True, 'thorough': True}
-ANCHORS = {'NmVerif.IsEqual.isequal': 'nmtools::utils::isequal (utility/isequal.hpp)', 'NmVerif.IsEqual.iscloseNd': 'nmtools::utils::isclose (utility/isclose.hpp)'}
+ANCHORS = {'NmVerif.IsEqual.isequal': 'nmtools::utils::isequal (utility/isequal.hpp)', 'NmVerif.IsEqual.isclose': 'nmtools::utils::isclose over optionals / eithers / tuples (utility/isclose.hpp:147-350)', 'NmVerif.IsEqual.iscloseNd': 'nmtools::utils::isclose (utility/isclose.hpp)'}
 MANIFEST = dict(
     text='Proof: Lean theorems that the model of isequal/isclose is exactly "same dimension and shape and all elements equal (resp. closer than eps)", total (never reads outside an operand for ANY pair of shapes), symmetric, reflexive, and treats optionals/eithers/tuples as the property states; the model is tied to utility/isequal.hpp and isclose.hpp by an exhaustive small-scope differential run (NDEBUG build and assert+ASan+UBSan build) on every check.',
     note='Lean kernel + propext/Classical.choice/Quot.sound. Which isequal branch is taken is a compile-time fact of the operand types: modelled by the Val constructors, validated by the harness pairings (fixed/raw array kinds are in C09). Element type modelled as Int; isclose arithmetic is exact integers in double.',
     technique='Lean 4 functional-induction proofs over the operand grammar + C01 round-trip lemma; differential correspondence incl. sanitizer build')
 ASSUMPTIONS = ['element comparison of the C++ (== on a promoted common type) is equality on the mathematical values for the int data used',
                'compile-time rejected pairings (different tuple sizes, number vs array) are not run-time behaviour']
-PARTIAL = []
-KNOWN_PREDICATES = {}
+PARTIAL = ['isclose_eq_ref: the code equals the reference (caller eps on every element) only where no either-vs-plain branch is taken or eps is the default; '
+           'on the remaining class the unchanged code violates the property (isclose_either_plain_counterexample, finding isclose.either-plain-eps)']
+
+EITHER_W = ('left', 'right', 'jleft', 'jright', 'lj', 'ln', 'mr')
+
+
+def _kv(req):
+    return dict(t.split('=', 1) for t in req.split()[1:] if '=' in t)
+
+
+def isclose_either_plain(case):
+    """input class of finding isclose.either-plain-eps: isclose with an explicit tolerance where exactly one operand is (or, being
+    an engaged optional, holds) an either and the other a plain / optional value - detail::isclose then calls isclose(*ptr,u)
+    WITHOUT eps.  Decided from the request alone."""
+    if not case.req.startswith('disp '):
+        return False
+    a = _kv(case.req)
+    if a.get('fn') != 'isclose' or 'eps' not in a:
+        return False
+    aw, bw = a.get('aw', 'plain'), a.get('bw', 'plain')
+    return ((aw in EITHER_W) != (bw in EITHER_W)) and (aw in ('plain', 'just') or bw in ('plain', 'just'))
+
+
+KNOWN_PREDICATES = {'isclose_either_plain': isclose_either_plain}
 
 
 def harness_specs(tier):
-    sp = [dict(name='h_c18', src='h_c18.cpp', flavour='fast'),
+    sp = [dict(name='h_c18b', src='h_c18b.cpp', flavour='fast'), dict(name='h_c18b_sandbg', src='h_c18b.cpp', flavour='san-dbg'),
+          dict(name='h_c18c', src='h_c18b.cpp', flavour='fast', extra=('-DC18B_ISCLOSE',)),
+          dict(name='h_c18c_sandbg', src='h_c18b.cpp', flavour='san-dbg', extra=('-DC18B_ISCLOSE',))]
+    sp += [dict(name='h_c18', src='h_c18.cpp', flavour='fast'),
           dict(name='h_c18_sandbg', src='h_c18.cpp', flavour='san-dbg'),
           dict(name='h_c18a', src='h_c18a.cpp', flavour='fast'), dict(name='h_c18a_sandbg', src='h_c18a.cpp', flavour='san-dbg')]
     if tier == 'thorough':
@@ -34,10 +62,157 @@ def tf(b):
     return 'ok true' if b else 'ok false'
 
 
+# ---- dispatch coverage (harness/h_c18b.cpp): operands are (kind, wrapper, data, shape)
+CONCEPT = {'num': 1, 'ct': 1, 'idx': 2, 'idxa': 2, 'idxc': 2, 'nd': 4, 'tup': 8}
+
+
+def d_mask(o):
+    k, w = o[0], o[1]
+    if w == 'N':
+        return 16
+    m = 5 if (w in EITHER_W or w == 'enothing') else CONCEPT[k]
+    return m | (32 if w in ('just', 'nothing', 'jleft', 'jright', 'enothing') else 0)
+
+
+def d_fix(o):
+    return len(o[2]) if o[0] in ('idxa', 'idxc') and o[1] != 'N' else 0
+
+
+def d_value(o):
+    """what the operand holds: None (nothing at all) or (concept, payload)"""
+    k, w, d, s = o
+    if w in ('N', 'nothing', 'enothing', 'ln'):
+        return None
+    if CONCEPT[k] == 1:
+        return (1, d[0])
+    if CONCEPT[k] == 2:
+        return (2, tuple(d))
+    if k == 'nd':
+        return (4, tuple(s), tuple(d))
+    return (8, d[0], tuple(d[1:]))
+
+
+def d_fmt(o, p):
+    k, w, d, s = o
+    return '%sk=%s %sw=%s %sd=%s' % (p, k, p, w, p, fmt(d)) + (' %ss=%s' % (p, fmt(s)) if k == 'nd' else '')
+
+
+def d_accepted(fn, x, y):
+    """True: the call compiles and returns bool; False: the LIBRARY answers with its fail type (ISEQUAL_UNSUPPORTED);
+    None: the pairing is rejected at compile time (static_assert / hard error) - the harness does not instantiate it"""
+    mx, my = d_mask(x), d_mask(y)
+    if (mx | my) & 16:
+        if mx & my & 16:
+            return False                # Nothing vs Nothing: fail type (isequal and isclose)
+        if fn == 'isclose':
+            return None                 # isclose(Nothing, maybe) is a hard error
+        if (mx | my) & 32:
+            return True                 # Nothing vs maybe: accepted
+        return False if 'plain' in (x[1], y[1]) and 'num' in (x[0] if x[1] == 'plain' else y[0],) else None
+    if not (mx & my & 15):
+        return None
+    if d_fix(x) and d_fix(y) and d_fix(x) != d_fix(y):
+        return None
+    return True
+
+
+def d_close(u, v, eps):
+    """reference: same concept, same shape, every element difference below eps (eps None: equality)"""
+    if u[0] != v[0]:
+        return False
+    near = (lambda p, q: p == q) if eps is None else (lambda p, q: abs(p - q) < eps)
+    if u[0] == 1:
+        return near(u[1], v[1])
+    if u[0] == 2:
+        return len(u[1]) == len(v[1]) and all(near(p, q) for p, q in zip(u[1], v[1]))
+    if u[0] == 4:
+        return u[1] == v[1] and all(near(p, q) for p, q in zip(u[2], v[2]))
+    return near(u[1], v[1]) and len(u[2]) == len(v[2]) and all(near(p, q) for p, q in zip(u[2], v[2]))
+
+
+def d_oracle(fn, x, y, eps):
+    """'not-accepted' | 'ok <r> rev=<r>' (the reference is symmetric by construction) | None (no reference meaning)"""
+    acc = d_accepted(fn, x, y)
+    if acc is None:
+        return 'skip'
+    if not acc:
+        return 'not-accepted'
+    u, v = d_value(x), d_value(y)
+    if u is None or v is None:
+        # an either HOLDING an empty optional against an empty optional: the property text does not say; the model is the judge
+        if (x[1] == 'ln') != (y[1] == 'ln') and u is None and v is None:
+            return None
+        r = (u is None and v is None)
+    else:
+        r = d_close(u, v, eps if fn == 'isclose' else None)
+    return 'ok %s rev=%s' % (('true', 'true') if r else ('false', 'false'))
+
+
+def gen_disp(tier):
+    hs_eq = ['h_c18b', 'h_c18b_sandbg']
+    hs_cl = ['h_c18c', 'h_c18c_sandbg']
+    N = ('num', 'N', [0], [])
+    # ---------------- isequal
+    ops = [N]
+    for v in (0, 3):
+        ops += [('num', w, [v], []) for w in ('plain', 'just', 'nothing', 'left', 'jleft', 'enothing', 'lj', 'ln')] + [('ct', 'plain', [v], [])]
+    for l in ([0, 1], [1, 1], [0, 1, 2]):
+        ops += [(k, w, l, []) for k in ('idx', 'idxa') for w in ('plain', 'just', 'nothing')]
+        if len(l) == 2:
+            ops.append(('idxc', 'plain', l, []))
+    for s, d in (([2], [0, 3]), ([2], [0, 4]), ([1, 2], [0, 3]), ([2, 1], [0, 3])):
+        ops += [('nd', w, d, s) for w in ('plain', 'just', 'nothing', 'right', 'jright', 'mr')]
+    for d in ([1, 2, 3], [1, 2, 4], [2, 2, 3], [1, 2]):
+        ops += [('tup', w, d, []) for w in ('plain', 'just', 'nothing')]
+    n = 0
+    for i, x in enumerate(ops):
+        for y in ops[i:] if tier == 'quick' else ops:
+            orc = d_oracle('isequal', x, y, None)
+            if orc == 'skip':
+                continue
+            n += 1
+            for hh in (hs_eq if (tier != 'quick' or 'N' in (x[1], y[1])) else [hs_eq[n % 2]]):
+                yield Case('disp fn=isequal %s %s' % (d_fmt(x, 'a'), d_fmt(y, 'b')), hh, oracle=orc,
+                           nontrivial=(orc != 'not-accepted'), tags=['dispatch', 'isequal', 'a=' + x[1], 'b=' + y[1], 'k=%s/%s' % (x[0], y[0])] +
+                           (['nothing-literal'] if 'N' in (x[1], y[1]) else []))
+    for what in ('none', 'ellipsis', 'dtype-same', 'dtype-diff'):
+        for hh in hs_eq:
+            yield Case('disp_misc what=' + what, hh, oracle='ok false rev=false' if what == 'dtype-diff' else 'ok true rev=true', model=False, tags=['dispatch', 'misc'])
+    for hh in hs_cl:
+        yield Case('disp_misc what=none', hh, oracle='ok true rev=true', model=False, tags=['dispatch', 'misc'])
+    # ---------------- isclose (element type double, integer-valued data)
+    ops = [N]
+    for v in (3, 5, 20):
+        ops += [('num', w, [v], []) for w in ('plain', 'just', 'nothing', 'left', 'jleft', 'enothing', 'lj', 'ln')]
+    for s, d in (([2], [3, 4]), ([2], [5, 5]), ([2], [3, 30]), ([1, 2], [3, 4])):
+        ops += [('nd', w, d, s) for w in ('plain', 'just', 'nothing', 'right', 'jright', 'mr')]
+    for d in ([3, 1, 2], [5, 2, 3], [3, 1, 30], [3, 1]):
+        ops.append(('tup', 'plain', d, []))
+    for i, x in enumerate(ops):
+        for y in ops[i:] if tier == 'quick' else ops:
+            for eps in (8, 1, None):
+                req = 'disp fn=isclose %s %s' % (d_fmt(x, 'a'), d_fmt(y, 'b')) + (' eps=%d' % eps if eps is not None else '')
+                orc = d_oracle('isclose', x, y, eps if eps is not None else 1)
+                if orc == 'skip':
+                    continue
+                c = Case(req, hs_cl[0], oracle=orc, nontrivial=(orc != 'not-accepted'),
+                         tags=['dispatch', 'isclose', 'a=' + x[1], 'b=' + y[1], 'eps=%s' % eps])
+                # the either-vs-plain branches drop the tolerance (finding isclose.either-plain-eps): off the theorem domain
+                c.dom = not isclose_either_plain(c)
+                yield c
+                n += 1
+                if tier != 'quick' or n % 3 == 0:
+                    c2 = Case(req, hs_cl[1], oracle=orc, nontrivial=(orc != 'not-accepted'), tags=list(c.tags))
+                    c2.dom = c.dom
+                    yield c2
+
+
 def gen(tier, rng):
     E = 3 if tier == 'quick' else 4
     hs = [s['name'] for s in harness_specs(tier) if s['src'] == 'h_c18.cpp']
     shp = list(shapes(3, E, min_rank=1))
+    # ---- every branch of the dispatchers, both operand orders (seeded change C18-4: bare Nothing literal on the left)
+    yield from gen_disp(tier)
     # ---- ndarray pairs
     for i, s1 in enumerate(shp):
         n1 = prod(s1)
